@@ -442,6 +442,7 @@ def C01(run):
 
 def C04(run):
     run.model_check("MCPlan", "MCPlan_quick.cfg", workers=8)
+    run.model_check("MCPipeline", "MCPipeline_safe.cfg", workers=8)     # order, no duplicate height without undo, nothing below the start
     _system_common(run, "C04:", "resume")
     _system_trace(run, "C04:", "strategies", n=(14 if run.tier == "quick" else 1000))
     # the same with the walker's output-file preloader switched on (an alternative configuration of the real code)
